@@ -244,6 +244,39 @@ theorem C13_vcf_usable (filt pol : Bool) (proj : List ℕ) (st : Site) (calls : 
     Bool.and_eq_false_iff, Bool.not_eq_false']
   cases filt <;> cases pol <;> cases st.pass <;> cases (siteSnp st calls).polarized <;> simp [and_assoc]
 
+/-- **the VCF path end to end (after parsing)**: with pairwise distinct CHROM_POS keys and every requested population present,
+    the total of the spectrum built from the lines is the number of lines that are kept (filter, single-base REF/ALT) and
+    usable (ancestral allele if polarised, enough calls) — `C13_vcf_usable` spells the condition out -/
+theorem C13_vcf_total (filt pol : Bool) (popIds proj : List ℕ) (sites : List Site) (dd : List Snp)
+    (h : ddVcf filt popIds sites = some dd) (hlen : popIds.length = proj.length)
+    (hk : ∀ es, vcfEntries filt popIds sites = some es → keysDistinct es) :
+    boxSum (shapeOf proj) (spectrumAt pol proj dd)
+      = ((sites.filter fun st => siteKept filt st && usable pol proj (siteSnp st (siteCalls st popIds))).length : ℚ) := by
+  unfold ddVcf at h
+  cases he : vcfEntries filt popIds sites with
+  | none => simp [he] at h
+  | some es =>
+    simp only [he, Option.map_some, Option.some.injEq] at h
+    subst h
+    rw [mkDict_distinct es (hk es he)]
+    have hes := vcfEntries_eq filt popIds sites es he
+    have hl : ∀ s ∈ es, s.calls.length = proj.length := by
+      intro s hs
+      rw [hes] at hs
+      obtain ⟨st, _, rfl⟩ := List.mem_map.mp hs
+      simp [siteSnp, siteCalls, hlen]
+    rw [C13_total pol proj es hl, countUsable, hes, List.filter_map, List.length_map, List.filter_filter]
+    congr 2
+    apply List.filter_congr
+    intro st _
+    simp [Function.comp, Bool.and_comm]
+
+example : ddVcf true [0]
+    [⟨0, 10, true, 1, 4, some 1, [⟨some 0, [0, 1], false⟩, ⟨some 0, [1, 1], false⟩, ⟨none, [0, 0], false⟩]⟩,
+     ⟨0, 12, false, 1, 4, some 1, [⟨some 0, [0, 1], false⟩]⟩,
+     ⟨0, 15, true, 1, 7, some 1, [⟨some 0, [0, 1], false⟩]⟩]
+    = some [(⟨0, 10, 0, 2, 1, 4, some 1, [(1, 3)]⟩ : Snp)] := by decide
+
 /-! ## chunks and bootstraps -/
 
 /-- **splitting the genome into chunks partitions the SNPs**: for any additive quantity the chunk values add up to
